@@ -170,6 +170,14 @@ func (l *link) exec(kind, key string, payload []byte, exp uint64, apply func(rec
 		return finish()
 	}
 	doApply()
+	if kind == OpCreate && rec.Applied && in.spec.SlowWinAnswer > 0 {
+		s.mu.Lock()
+		if in.wonCreates == in.spec.SlowWinN {
+			resp = in.spec.SlowWinAnswer
+		}
+		in.wonCreates++
+		s.mu.Unlock()
+	}
 	s.trigger(rule, "applied")
 	s.sleepI(resp)
 	s.trigger(rule, "returning")
